@@ -28,6 +28,9 @@ Freq5 == <<2, 10, 50, 250, 1250>>
 ShapesC == ShapeSet({2, 3, 4}, {2, 3, 6})
 RangesC == { <<NoEnd, NoEnd>> }
 SidesBoth == {1, -1}
+\* flat-topped highest peak (two equal samples at p, p + 1) and a lower ordinary peak at q
+FlatTop(p, q, h) == [j \in 1..NFq |-> IF j \in {p, p + 1} THEN h ELSE IF j = q THEN h - 1 ELSE 1]
+ShapesFlat == UNION { { [a |-> FlatTop(pq[1], pq[2], h), peak |-> pq[1] + d] : d \in {0, 1} } : pq \in { <<4, 9>>, <<9, 4>>, <<7, 11>>, <<11, 6>> }, h \in {3, 6} }
 \* a grid (1/1000 Hz) that is fine around f0 = 3 Hz: 0.94, 0.951, 1, 1.051, 1.06 f0 - the neighbours of the peak lie just
 \* inside the 5 % band of criterion iv, the next ones just outside
 Freq9 == <<700, 1500, 2820, 2853, 3000, 3153, 3180, 6000, 13000>>
